@@ -155,7 +155,7 @@ example : Loadable [⟨s "/q/a.volume", []⟩, ⟨s "/q/p.pod", []⟩, ⟨s "/q/
 them: the `Wants=` and the `Before=` entries of the generated pod service are the ones the unit already had (default
 dependencies, the user's own) followed by exactly one per member, in that order — no more, no fewer. -/
 
-theorem C09_pod_wants_members (E : Env) (path : Str) (u svc : SUnit) (cs : List Str) (h : fromPod E path u cs = .ok svc) :
+theorem C09_pod_wants_members (E : Env) (path : Str) (u svc : MM.SUnit) (cs : List Str) (h : fromPod E path u cs = .ok svc) :
     keyEntries svc (s "Unit") (s "Wants")
       = keyEntries (preService path u (s "Pod") (s "X-Pod")) (s "Unit") (s "Wants") ++ cs.map (fun c => (s "Wants", P.quoteValue c)) ∧
     keyEntries svc (s "Unit") (s "Before")
